@@ -96,6 +96,9 @@ type pathState struct {
 	maxDepth int
 	nrand    int
 	randRanges []value
+	randVars   []*Term
+	probMode   bool
+	out        []value // text written to the in-memory output sink
 	numCPUSym bool
 	numericNamesExcluded bool
 	initMode bool
